@@ -47,4 +47,41 @@ def inlCalls (crit : OpId → Bool) (m : FModel) : Nat :=
 /-- `model.functions` is a dictionary: the identifiers are distinct (hypothesis of the flag theorem) -/
 def funcIdsNodup (m : FModel) : Bool := decide ((m.funcs.map (·.id)).Nodup)
 
+/-! ## CommonSubexpressionEliminationPass: a measure that also decreases in "stalled" rounds
+
+A stalled rewrite turns `o = Identity(x)` into `o = Identity(z)` where `z = Identity(x)` is the node that was kept:
+the graph output `o` hangs one link deeper in a chain of Identity nodes.  The total chain depth of the one-input
+one-output Identity nodes of the main graph therefore grows in a round all of whose rewrites are stalled, while the
+weighted node count `cseW` (which bounds it by its square) does not grow. -/
+
+/-- the shape `y = Identity(x)` (`Passes.ieCandidate`: domain "", one present input, one output) -/
+def idShape (n : Node) : Option (VId × VId) := ieCandidate n.op n.ins n.outs
+
+/-- chain depth of the values defined so far (newest first; a value without an entry has depth 0) -/
+abbrev DMap := List (VId × Nat)
+def dget (δ : DMap) (v : VId) : Nat := (δ.lookup v).getD 0
+
+/-- the values a node defines: one deeper than its input for `y = Identity(x)`, depth 0 for every other node -/
+def dstep (δ : DMap) (n : Node) : DMap :=
+  match idShape n with
+  | some (x, y) => (y, dget δ x + 1) :: δ
+  | none => n.outs.map (fun v => (v, 0)) ++ δ
+
+def dcontrib (δ : DMap) (n : Node) : Nat :=
+  match idShape n with
+  | some (x, _) => dget δ x + 1
+  | none => 0
+
+/-- total chain depth of a node list (top level, in order) -/
+def phiSum : DMap → List Node → Nat
+  | _, [] => 0
+  | δ, n :: ns => dcontrib δ n + phiSum (dstep δ n) ns
+
+def cseDepth (m : Model) : Nat := phiSum [] m.graph.nodes
+
+/-- the measure of CSE: lexicographic (weighted node count, then `W*W - depth`) packed into one number -/
+def cseMu (m : Model) : Nat :=
+  cseW m.graph.nodes * (cseW m.graph.nodes * cseW m.graph.nodes + 1) +
+    (cseW m.graph.nodes * cseW m.graph.nodes - cseDepth m)
+
 end IrVerif.PassFlags
